@@ -33,10 +33,11 @@ Fin(x) == x.s # 2
 (* ---- operation classes --------------------------------------------------------------------- *)
 ExactOps == {"view", "transpose", "t", "permute", "select", "slice", "unsqueeze", "expand", "cat", "stack", "split",
              "slice_step", "select_neg", "squeeze", "flatten", "add_tensor", "mul_t1", "div_t1",
-             "neg", "relu", "clone", "detach", "abs", "add1", "sum", "gelu", "contiguous", "lt", "copy_", "div_tensor", "roundtrip"}
+             "neg", "relu", "clone", "detach", "abs", "add1", "sum", "gelu", "contiguous", "lt", "copy_", "div_tensor", "roundtrip", "to_device"}
+ContractOps == {"matmul", "bmm", "linear"}
 RescaleOps == {"mul", "div", "to", "mul_t", "div_t", "rmul"}
 RequantOps == {"softmax", "where"}
-MoveOps == {"clone", "detach", "contiguous", "to", "roundtrip"}
+MoveOps == {"clone", "detach", "contiguous", "to", "roundtrip", "to_device"}
 
 (* ---- C06 well-formedness of a projected result ------------------------------------------------ *)
 RECURSIVE ProdS(_)
@@ -86,12 +87,23 @@ RequantOK(e) ==
                /\ LET step == IF a.qt = "qint8" THEN s ELSE BMax(BShrCeil(SAbs(e.twin[i]), mb), s)
                   IN BLe(SDist(e.dq[i], e.twin[i]), BAdd(step, URel(BMax(SAbs(e.twin[i]), s), 8, p)))
 
+\* contractions: within the error of one accumulation, |dq - ref| <= gamma_(K+4) * sum |a||b| + 4u |ref|  (absref = sum |a||b|, logged)
+ContractOK(e) ==
+  LET p == PBits(e.fmt_out) n == e.kdim + 4 IN
+  /\ Len(e.dq) = Len(e.twin) /\ Len(e.absref) = Len(e.twin)
+  /\ \A i \in 1..Len(e.dq) :
+       \/ (~Fin(e.twin[i]) /\ ~Fin(e.dq[i]))             \* the float program itself produces inf / nan here (e.g. 0 / 0 earlier on)
+       \/ /\ Fin(e.dq[i]) /\ Fin(e.twin[i]) /\ Fin(e.absref[i])
+          /\ BLe(SDist(e.dq[i], e.twin[i]),
+              BAdd(BAdd(IF 4 * n < 2^p THEN URel(e.absref[i].m, 2 * n, p) ELSE e.absref[i].m, URel(SAbs(e.twin[i]), 4, p)), <<1>>))
+
 ValueOK(e) ==
   /\ e.dq_shape = e.twin_shape
   /\ (e.op \notin {"to", "lt"}) => e.dq_dtype = e.twin_dtype
   /\ CASE e.op \in ExactOps -> ExactEq(e)
        [] e.op \in RescaleOps -> IF IsQK(e.after.kind) THEN RescaleOK(e) ELSE ExactEq(e)
        [] e.op \in RequantOps -> RequantOK(e)
+       [] e.op \in ContractOps -> ContractOK(e)
        [] OTHER -> FALSE
 
 \* C06: moves and copies never alter codes; a dtype move changes only the dtype of the scale
@@ -124,15 +136,20 @@ DevSig(d, e) ==
                                /\ <<-1, 128>> \in {e.before.codes[i] : i \in 1..Len(e.before.codes)}
                                /\ WellFormedProj(e.after, e)
     [] d = "Dev_C06_SplitStaleSize" -> e.op = "split" /\ e.outcome = "value" /\ IsQK(e.after.kind) /\ e.after.shape = e.before.shape
+    \* torch._int_mm on weights.t() of shape (1, N), N > 1 (C07 finding reached through a program): qint8 x qint8, one input feature
+    [] d = "Dev_C07_IntMMK1" -> e.op = "linear" /\ e.outcome = "value" /\ e.kdim = 1 /\ Judge = "C05"
+                                /\ e.before.kind = "QBytes" /\ e.before.qt = "qint8" /\ e.before.axis = "none"
+                                /\ e.aux.kind = "QBytes" /\ e.aux.qt = "qint8" /\ e.aux.shape[1] > 1 /\ e.dq_shape = e.twin_shape
     [] OTHER -> FALSE
 
-CONSTANTS Dev_C05_DivTensor, Dev_C05_NegMin
-DevOn == {d \in {"Dev_C05_StackFallback", "Dev_C05_T1D", "Dev_C05_WhereOther", "Dev_C05_LtFloat8", "Dev_C05_CopyPlain",
+CONSTANTS Dev_C05_DivTensor, Dev_C05_NegMin, Dev_C07_IntMMK1
+DevOn == {d \in {"Dev_C07_IntMMK1", "Dev_C05_StackFallback", "Dev_C05_T1D", "Dev_C05_WhereOther", "Dev_C05_LtFloat8", "Dev_C05_CopyPlain",
                  "Dev_C05_DivTensor", "Dev_C05_NegMin", "Dev_C06_SplitStaleSize"} :
             CASE d = "Dev_C05_StackFallback" -> Dev_C05_StackFallback [] d = "Dev_C05_T1D" -> Dev_C05_T1D
               [] d = "Dev_C05_WhereOther" -> Dev_C05_WhereOther [] d = "Dev_C05_LtFloat8" -> Dev_C05_LtFloat8
               [] d = "Dev_C05_CopyPlain" -> Dev_C05_CopyPlain [] d = "Dev_C05_DivTensor" -> Dev_C05_DivTensor
-              [] d = "Dev_C05_NegMin" -> Dev_C05_NegMin [] d = "Dev_C06_SplitStaleSize" -> Dev_C06_SplitStaleSize}
+              [] d = "Dev_C05_NegMin" -> Dev_C05_NegMin [] d = "Dev_C06_SplitStaleSize" -> Dev_C06_SplitStaleSize
+              [] d = "Dev_C07_IntMMK1" -> Dev_C07_IntMMK1}
 
 (* ---- as-built prediction (drift) --------------------------------------------------------------------- *)
 MetaOf(a, dt) == [kind |-> a.kind, qt |-> a.qt, axis |-> a.axis, shape |-> a.shape, pshape |-> a.shape, dtype |-> dt, why |-> ""]
